@@ -454,4 +454,31 @@ example : (BarS.runChoices (BarS.init 3 2 true) barSChoices).map
 example : (BarS.runChoices (BarS.init 3 2 true) barSChoices).map
     (fun (s : BarS.State) => s.thr.all (fun (th : BarS.Thread) => th.pc == BarS.Pc.finished)) = some true := by decide
 
+
+/-! ## "No transition at all" implies "at rest"
+
+The at-rest theorems above are stated with the executable predicate `enabled`.  In reachable states an enabled
+thread always has a transition, so a state without any transition is at rest. -/
+
+theorem sem_stuck_is_at_rest {v : Nat} {ths : List (List Sem.Op)} {s : Sem.State} (h : Sem.Reachable v ths s)
+    (hstuck : ∀ t c, Sem.step s t c = none) : ∀ t, Sem.enabled s t = false := by
+  intro t
+  cases he : Sem.enabled s t with
+  | false => rfl
+  | true => obtain ⟨o, ho⟩ := Sem.enabled_step h 0 he; rw [hstuck t 0] at ho; simp at ho
+
+theorem barM_stuck_is_at_rest {s : BarM.State} (hstuck : ∀ t c, BarM.step s t c = none) :
+    ∀ t, BarM.enabled s t = false := by
+  intro t
+  cases he : BarM.enabled s t with
+  | false => rfl
+  | true => obtain ⟨o, ho⟩ := BarM.enabled_step 0 he; rw [hstuck t 0] at ho; simp at ho
+
+theorem barS_stuck_is_at_rest {s : BarS.State} (hstuck : ∀ t c, BarS.step s t c = none) :
+    ∀ t, BarS.enabled s t = false := by
+  intro t
+  cases he : BarS.enabled s t with
+  | false => rfl
+  | true => obtain ⟨o, ho⟩ := BarS.enabled_step 0 he; rw [hstuck t 0] at ho; simp at ho
+
 end TlxVerif.C11
